@@ -7,7 +7,7 @@ REPO = os.environ.get("VERIF_REPO", "/repo")
 LEAN = os.path.join(ROOT, "lean")
 BIN = os.path.join(LEAN, ".lake", "build", "bin")
 ALLOWED_AXIOMS = {"propext", "Classical.choice", "Quot.sound"}
-FORBIDDEN = re.compile(r"\bsorry\b|\badmit\b|^\s*axiom\s|native_decide|bv_decide|implemented_by|\bunsafe\s|maxHeartbeats\s+0")
+FORBIDDEN = re.compile(r"\bsorry\b|(^|by|;|<;>|·|=>)\s*admit\s*($|;|<;>)|^\s*axiom\s|native_decide|bv_decide|implemented_by|\bunsafe\s|maxHeartbeats\s+0")
 
 GOENV = dict(GOFLAGS="-mod=mod", GOPROXY="off", GOSUMDB="off", GOTOOLCHAIN="local",
              CGO_ENABLED=os.environ.get("CGO_ENABLED", "1"))
@@ -126,24 +126,38 @@ class Ctx:
         for name, axs in sorted(thms.items()):
             bad = [a for a in axs if a not in ALLOWED_AXIOMS]
             self.oblige("thm:" + name, not bad, "axioms: " + ",".join(axs))
-        # forbidden tokens anywhere in the Lean project sources (comments stripped)
+        # forbidden tokens in the import closure of the property's modules + driver (comments stripped)
         hits = []
-        for p in glob.glob(os.path.join(LEAN, "**", "*.lean"), recursive=True):
-            if "/.lake/" in p:
-                continue
+        for p in self.import_closure(list(modules) + (["Driver." + self.id] if exe else [])):
             src = open(p, errors="replace").read()
             src = re.sub(r"/-.*?-/", lambda m: "\n" * m.group(0).count("\n"), src, flags=re.S)
             for i, line in enumerate(src.split("\n"), 1):
                 line = line.split("--")[0]
                 if FORBIDDEN.search(line):
                     hits.append(f"{os.path.relpath(p, LEAN)}:{i}: {line.strip()[:80]}")
-        self.oblige("no-sorry/axiom/native_decide in lean/", not hits, "; ".join(hits[:5]))
+        self.oblige("no-sorry/axiom/native_decide in import closure", not hits, "; ".join(hits[:5]))
         self.theorems = thms
         if self.thorough and modules:
             with LakeLock():
                 rc, out3 = sh(["lake", "env", "leanchecker"] + list(modules), cwd=LEAN, timeout=3000)
             self.oblige("leanchecker:" + ",".join(modules), rc == 0, out3[-500:])
         return thms
+
+    def import_closure(self, modules):
+        """source files of the given project modules and everything they import inside the project"""
+        seen, todo, files = set(), list(modules), []
+        while todo:
+            m = todo.pop()
+            if m in seen:
+                continue
+            seen.add(m)
+            p = os.path.join(LEAN, *m.split(".")) + ".lean"
+            if not os.path.exists(p):
+                continue
+            files.append(p)
+            for imp in re.findall(r"^\s*(?:public\s+)?import\s+(?:all\s+)?([\w.]+)", open(p, errors="replace").read(), re.M):
+                todo.append(imp)
+        return files
 
     def lean_eval(self, imports, expr):
         """#eval a (decidable/Bool/String) expression in the project; returns stripped output or None"""
